@@ -53,6 +53,7 @@ func RandomUniformBinaryTree(nbtips int, rooted bool) (*Tree, error) {
 				nchoices++
 			}
 			i_edge := rand.Intn(nchoices)
+			verifDraw("uniformtree", nchoices, i_edge)
 			if i_edge == len(edges) {
 				newroot := t.NewNode()
 				newedge := t.ConnectNodes(newroot, t.Root())
@@ -173,6 +174,7 @@ func RandomYuleBinaryTree(nbtips int, rooted bool) (*Tree, error) {
 		default:
 			// Where to insert the new tip
 			i_tip := rand.Intn(len(tips))
+			verifDraw("yuletree", len(tips), i_tip)
 			ntemp := tips[i_tip]
 			e := ntemp.br[0]
 			newedge, newedge2, _, err := t.GraftTipOnEdge(n, e)
